@@ -1,1 +1,118 @@
 // Kani harnesses compiled inside rs-matter/src/sc/checkin.rs (module `verif_kani`).
+
+mod c12 {
+    use super::*;
+
+    fn covered(u: u32, d: u32, epoch: u32) -> bool {
+        d.wrapping_sub(u) < epoch
+    }
+
+    fn inv(c: &CheckInCounter) -> bool {
+        let dist = c.next_epoch.wrapping_sub(c.value);
+        c.epoch >= 1 && dist >= 1 && dist <= c.epoch
+    }
+
+    fn any_counter() -> CheckInCounter {
+        let c = CheckInCounter {
+            value: kani::any(),
+            next_epoch: kani::any(),
+            epoch: kani::any(),
+        };
+        kani::assume(inv(&c));
+        c
+    }
+
+    /// `new(start, epoch)`: resumes exactly at `start`, the boundary to store at once is one
+    /// epoch ahead, the invariant holds. (`epoch == 0` is refused by an assertion: documented
+    /// precondition.)
+    // TIER: quick
+    // KIND: complete
+    #[kani::proof]
+    fn c12_checkin_new() {
+        let start: u32 = kani::any();
+        let epoch: u32 = kani::any();
+        kani::assume(epoch != 0);
+        let c = CheckInCounter::new(start, epoch);
+        kani::assert(c.value == start, "C12.checkin.new_resumes_at_start");
+        kani::assert(c.next() == start.wrapping_add(1), "C12.checkin.new_first_value_is_past_start");
+        kani::assert(c.persist_value() == start.wrapping_add(epoch), "C12.checkin.new_boundary_one_epoch_ahead");
+        kani::assert(inv(&c), "C12.checkin.new_establishes_invariant");
+        // a restart from the boundary stored by the previous run (`start`) is past everything
+        // that run could use: its values were covered by `start`, ours are not
+        kani::assert(!covered(c.next(), start, epoch), "C12.checkin.new_first_value_not_covered_by_old_boundary");
+        kani::cover!(start == u32::MAX, "start at the top of the range");
+        kani::cover!(start.wrapping_add(epoch) < start, "boundary across the wrap");
+    }
+
+    /// `next` + `advance`: the value used was covered by the boundary stored so far; the counter
+    /// moves by exactly one; `Some(b)` exactly when the counter reached the stored boundary,
+    /// with `b` one epoch further and equal to the new `persist_value()`; afterwards (once `b`
+    /// is stored) the next value is covered again.
+    // TIER: quick
+    // KIND: complete
+    #[kani::proof]
+    fn c12_checkin_advance() {
+        let mut c = any_counter();
+        let (v0, d0, e) = (c.value, c.next_epoch, c.epoch);
+        let used = c.next();
+        kani::assert(used == v0.wrapping_add(1), "C12.checkin.next_is_value_plus_one");
+        kani::assert(c.persist_value() == d0, "C12.checkin.persist_value_is_boundary");
+        kani::assert(covered(used, d0, e), "C12.checkin.used_value_covered_by_stored_boundary");
+
+        let r = c.advance();
+
+        kani::assert(c.value == used, "C12.checkin.advance_consumes_exactly_next");
+        kani::assert(c.epoch == e, "C12.checkin.advance_keeps_epoch");
+        kani::assert(r.is_some() == (used == d0), "C12.checkin.persist_iff_counter_reached_boundary");
+        match r {
+            Some(b) => {
+                kani::assert(b == d0.wrapping_add(e), "C12.checkin.advance_boundary_one_epoch_ahead");
+                kani::assert(b == c.persist_value(), "C12.checkin.returned_boundary_is_persist_value");
+            }
+            None => kani::assert(c.next_epoch == d0, "C12.checkin.boundary_kept_when_covered"),
+        }
+        kani::assert(inv(&c), "C12.checkin.advance_preserves_invariant");
+        kani::assert(covered(c.next(), c.persist_value(), e), "C12.checkin.next_value_covered_by_boundary_to_store");
+        // strictly increasing (mod 2^32): the next value is the successor of the one just used
+        kani::assert(c.next() == used.wrapping_add(1), "C12.checkin.values_strictly_increasing");
+
+        kani::cover!(r.is_some(), "boundary reached");
+        kani::cover!(r.is_none(), "still covered");
+        kani::cover!(v0 == u32::MAX, "value wraps to 0");
+        kani::cover!(r.is_some() && c.next_epoch < d0, "boundary wraps");
+        kani::cover!(e == 1, "epoch of one");
+    }
+
+    /// `advance_by(delta)`: jumps by exactly `delta`; `Some(b)` exactly when the jump reached or
+    /// passed the stored boundary, with `b` one epoch past the new value; a shorter jump keeps
+    /// the boundary; the invariant is preserved either way.
+    // TIER: quick
+    // KIND: complete
+    #[kani::proof]
+    fn c12_checkin_advance_by() {
+        let mut c = any_counter();
+        let (v0, d0, e) = (c.value, c.next_epoch, c.epoch);
+        let delta: u32 = kani::any();
+        let to_boundary = d0.wrapping_sub(v0);
+
+        let r = c.advance_by(delta);
+
+        kani::assert(c.value == v0.wrapping_add(delta), "C12.checkin.advance_by_jumps_exactly_delta");
+        kani::assert(c.epoch == e, "C12.checkin.advance_by_keeps_epoch");
+        kani::assert(r.is_some() == (delta >= to_boundary), "C12.checkin.advance_by_persist_iff_boundary_reached_or_passed");
+        match r {
+            Some(b) => {
+                kani::assert(b == c.value.wrapping_add(e), "C12.checkin.advance_by_boundary_one_epoch_past_new_value");
+                kani::assert(b == c.persist_value(), "C12.checkin.advance_by_returned_boundary_is_persist_value");
+            }
+            None => kani::assert(c.next_epoch == d0, "C12.checkin.advance_by_boundary_kept"),
+        }
+        kani::assert(inv(&c), "C12.checkin.advance_by_preserves_invariant");
+        kani::assert(covered(c.next(), c.persist_value(), e), "C12.checkin.advance_by_next_value_covered");
+
+        kani::cover!(r.is_some() && delta == to_boundary, "lands on the boundary");
+        kani::cover!(r.is_some() && delta == u32::MAX, "largest jump");
+        kani::cover!(r.is_none() && delta > 0, "short jump");
+        kani::cover!(delta == 0, "no jump");
+    }
+}
